@@ -16,7 +16,7 @@ EXEC_PROPS = ['C12_PTOnlyWhenClean', 'C12_CallbackArgs']
 
 EXEC = {
     'C01': dict(owns=['C01'], decide='C01_SuccessValid (MC); ValidOf on the logged destination of every successful real run',
-                q='file:0,universe:1200,random:500', t='file:0,universe:0,random:12000'),
+                q='file:0,universe:1200,random:400,success:500', t='file:0,universe:0,random:10000,success:8000'),
     'C02': dict(owns=['C02', 'C02T', 'C02M'], decide='C02_Exact (MC); bag of logged (path,code,type) = RefIssues; lock-step issue/swallow events',
                 q='file:0,universe:1200,random:500', t='file:0,universe:0,random:12000'),
     'C05': dict(owns=['C05'], decide='C05_NonInterference, M_DestAll (MC); logged issues off catching paths = reference of Uncatch(schema); destination of every catching node = reference in every run (catch-dest)',
@@ -214,8 +214,8 @@ for _p in EXEC:
 # ZogPools engine: C07 (call histories), C08 (goroutines)
 # ---------------------------------------------------------------------------------------------
 POOL_SW = ['SwResetCtxMap', 'SwResetFmter', 'SwResetErrs', 'SwResetFlags', 'SwCoerceResetsParams', 'SwTestResetsMsg',
-           'SwCoerceResetsMsg', 'SwCollectOncePerIssue']
-POOL_KINDS = '{"plain", "ctxval", "probectx", "fail1", "fmtopt", "fail2", "coerce", "custom", "catch"}'
+           'SwCoerceResetsMsg', 'SwCollectOncePerIssue', 'SwPoolNewFresh', 'SwFrontEndIssueFresh']
+POOL_KINDS = '{"plain", "ctxval", "probectx", "fail1", "fmtopt", "fail2", "coerce", "custom", "catch", "nested", "badjson"}'
 
 
 def pool_consts(procs='{1}', maxcalls=2, kinds=POOL_KINDS, maxobj=4, extra=None):
@@ -547,6 +547,43 @@ def c03_engine(prop, tier, replay, t0):
 
 
 ENGINES['C03'] = c03_engine
+
+
+def c13_engine(prop, tier, replay, t0):
+    """C13 = Validate/Parse pairs through the traversal machine + typed boundary values of the numeric table."""
+    if replay and not open(replay).readline().startswith('{"e":"call"'):
+        line = json.loads(open(replay).readline())
+        vlib.build_harness()
+        verdicts, st, g, res, trace, nrows = table_run('Tab_C18', 'numtab', harness_args=['-neighbours=true'])
+        bad = [v for v in verdicts if v['prop'] == 'C13' and v['detail'].get('dest') == line.get('dest') and v['detail'].get('input') == line.get('input')]
+        for v in bad[:3]:
+            print('VIOLATION property=C13 replay=%s' % replay)
+        return 1 if bad else 0
+    rc = exec_engine(prop, tier, replay, t0)
+    if replay:
+        return rc
+    os.makedirs(vlib.REPLAY, exist_ok=True)
+    verdicts, st, g, res, trace, nrows = table_run('Tab_C18', 'numtab', harness_args=['-neighbours=true'])
+    mine = [v for v in verdicts if v['prop'] == 'C13']
+    lines = open(trace).read().splitlines()
+    typed = sum(1 for l in lines if '"vissues":-1' not in l)
+    for v in mine[:5]:
+        path = '%s/C13-Tab_C18-%s.ndjson' % (vlib.REPLAY, v['id'])
+        open(path, 'w').write(lines[v['line'] - 1] + '\n')
+        print('VIOLATION property=C13 replay=%s' % path)
+        log('  verdict: %s %s: %s' % (v['prop'], v['kind'], json.dumps(v['detail'])[:600]))
+    ev = json.load(open('%s/C13.json' % vlib.EVID))
+    ev['coverage']['typed_boundary_values'] = dict(rows=nrows, typed_values_given_to_both_modes=typed, tlc_states=res['distinct'],
+                                                   rule='every value of Tab_C18 whose Go type is the destination type (int into Int, int32 into Int32, ...) at and around every type bound: Validate accepts it, so Parse must accept it unchanged')
+    ev['coverage']['traces_validated_against_impl'] += typed
+    ev['coverage']['evaluations'] += typed
+    ev['violations'] += len(mine)
+    ev['wall_s'] = round(time.time() - t0, 2)
+    json.dump(ev, open('%s/C13.json' % vlib.EVID, 'w'), indent=1, sort_keys=True)
+    return 1 if (rc or mine) else 0
+
+
+ENGINES['C13'] = c13_engine
 
 
 def c20_engine(prop, tier, replay, t0):
